@@ -89,6 +89,25 @@ PROPS = {
         "bounds": {"quick": "as C03 (same harness, supply/recipient assertions)", "thorough": "as C03"},
         "assumptions": BATCH_ASSUMPTIONS,
     },
+    "C17": {
+        "asserts": ["C17.", "uncaught-panic"],
+        "harnesses": [
+            {"id": "history-queries", "func": "VerifHistory", "pkg": PEG, "pkgname": "pegnet", "load": ["./node/pegnet"],
+             "params": {"quick": {}, "thorough": {}}, "must_cover": ["some-actions", "no-actions"], "max_witness_replays": 8},
+        ] + TXBLOCK_HARNESSES[:1] + HOLDING_HARNESSES[:1] + BATCH_HARNESSES[:1] + [
+            {"id": "rewards", "func": "VerifRewards", "pkg": NODE, "pkgname": "node", "load": ["./node"],
+             "params": {"quick": {"maxwinners": 2}, "thorough": {"maxwinners": 3}}, "must_cover": ["winners"], "max_witness_replays": 2},
+            {"id": "scheduled", "func": "VerifScheduled", "pkg": NODE, "pkgname": "node", "load": ["./node"],
+             "params": {"quick": {}, "thorough": {}}, "must_cover": ["dev"], "max_witness_replays": 2},
+            {"id": "snapshot", "func": "VerifSnapshot", "pkg": NODE, "pkgname": "node", "load": ["./node"],
+             "params": {"quick": {"both": 2, "extras": 1, "assets": 1}, "thorough": {"both": 2, "extras": 1, "assets": 1}}, "must_cover": ["paid"], "max_witness_replays": 2},
+        ],
+        "wall": {"quick": 400, "thorough": 3000},
+        "bounds": {"quick": "history of 2 batches (transfer with 2 outputs + conversion; transfer), an FCT burn and a coinbase written by the real insert functions at symbolic heights; one query by hash / txid / address / height with every combination of order, the four type filters and 4 asset filters (first page); plus the status/amount assertions of the block-application harnesses (transaction block, holding pass, batch, rewards, developer payout, staking payout)",
+                   "thorough": "same"},
+        "assumptions": ["NOT APPLICABLE sub-claim: paging beyond the first page (page size is the constant 50: a second page needs > 50 joined rows)",
+                        "json round trip of the outputs column stubbed; 'replaying history reproduces balances' is asserted per unit (recorded amounts == balance deltas of the unit), scheduled adjustments exempt as the property says"],
+    },
     "C18": {
         "asserts": ["C18.", "uncaught-panic"],
         "harnesses": [
